@@ -191,6 +191,77 @@ func netBudget() time.Duration {
 	return 25 * time.Second
 }
 
+
+// stallWindow is the zero-progress window of the stall oracle: that many
+// seconds (>= 15 periods of parallelSync's 1 s ticker) without any node's tip
+// or any node's count of distinct blocks handed to its manager changing, while
+// every connection is up, tips are re-announced every 200 ms and some node is
+// sufficiently lighter than an announceable (v2) dominating tip. It is a
+// progress criterion, not a total-time budget.
+func stallWindow() time.Duration {
+	if kit.Thorough() {
+		return 25 * time.Second
+	}
+	return 15 * time.Second
+}
+
+// stallWindowByz is the window for clusters with Byzantine peers: the victim
+// works through the header chains of its peers one after the other (>= 1-2 s
+// each when a liar fails to deliver), so legitimate zero-progress gaps are
+// longer there (measured: up to 5.4 s under load, against 2.6 s among honest
+// nodes).
+func stallWindowByz() time.Duration {
+	if kit.Thorough() {
+		return 40 * time.Second
+	}
+	return 25 * time.Second
+}
+
+// stallTracker measures the longest zero-progress gap while the stall
+// conditions hold.
+type stallTracker struct {
+	key    string
+	since  time.Time
+	maxGap time.Duration
+}
+
+// observe is called every tick; conds = the stall conditions hold right now,
+// key = tips and submitted-block counts of every node. It returns true when the
+// conditions have held without progress for the whole window.
+func (st *stallTracker) observe(conds bool, key string) bool {
+	return st.observeW(conds, key, stallWindow())
+}
+
+func (st *stallTracker) observeW(conds bool, key string, window time.Duration) bool {
+	now := time.Now()
+	if !conds || key != st.key || st.since.IsZero() {
+		st.key, st.since = key, now
+		if !conds {
+			st.since = time.Time{}
+		}
+		return false
+	}
+	gap := now.Sub(st.since)
+	if gap > st.maxGap {
+		st.maxGap = gap
+	}
+	return gap >= window
+}
+
+func (st *stallTracker) class(cs *kit.CaseStats) {
+	ms := st.maxGap.Milliseconds()
+	for _, b := range []int64{500, 1000, 1500, 2000, 3000, 5000, 8000, 15000} {
+		if ms <= b {
+			cs.Classf("max-zero-progress-gap<=%dms", b)
+			return
+		}
+	}
+	cs.Class("max-zero-progress-gap>15000ms")
+}
+
+// stallOracle: enforced unless VERIF_NET_NOSTALL is set (measurement runs).
+func stallOracle() bool { return os.Getenv("VERIF_NET_NOSTALL") == "" }
+
 type clusterNode struct {
 	sn      *p2px.SyncerNode
 	start   *kit.TNode
@@ -293,6 +364,26 @@ func runC12(c C12Case, cs *kit.CaseStats) error {
 		return nodes[e.a].sn.HasPeer(nodes[e.b].sn.Addr()) || nodes[e.b].sn.HasPeer(nodes[e.a].sn.Addr())
 	}
 
+	// the branch every node must end on, if there is one (see the convergence
+	// oracle below): sufficiently heavier than every other branch of the cluster
+	var dom *kit.TNode
+	for _, t := range tips {
+		if t == nil {
+			continue
+		}
+		ok := true
+		for _, o := range tips {
+			if o != nil && o != t && !t.Ledger.State.SufficientlyHeavierThan(o.Ledger.State) {
+				ok = false
+			}
+		}
+		if ok {
+			dom = t
+		}
+	}
+	var stall stallTracker
+	stalled := ""
+
 	// run until quiescent or out of budget
 	start := time.Now()
 	lastChange := time.Now()
@@ -300,6 +391,9 @@ func runC12(c C12Case, cs *kit.CaseStats) error {
 	quiescent := false
 	rounds, reconnects := 0, 0
 	lastLive, lastSynced := true, true
+	lastMove := time.Now()
+	moveKey := ""
+	settled := false
 	lastIter := time.Now()
 	for time.Since(start) < netBudget() {
 		time.Sleep(netTick)
@@ -317,6 +411,13 @@ func runC12(c C12Case, cs *kit.CaseStats) error {
 			if s := n.sn.Node.CM.Tip().String(); s != prev[i] {
 				prev[i], changed = s, true
 			}
+		}
+		mk := ""
+		for _, n := range nodes {
+			mk += fmt.Sprintf("%v/%d;", n.sn.Node.CM.Tip(), n.sn.CM.SubmittedCount())
+		}
+		if mk != moveKey {
+			moveKey, lastMove = mk, time.Now()
 		}
 		allLive := true
 		for _, e := range edges {
@@ -336,9 +437,55 @@ func runC12(c C12Case, cs *kit.CaseStats) error {
 		if changed || !allLive || !allSynced {
 			lastChange = time.Now()
 		}
+		// stall oracle: all edges up, an announceable dominating tip exists, some
+		// node is sufficiently lighter than it, and nothing at all has moved
+		if dom != nil && dom.Block.V2 != nil {
+			lighter := false
+			key := ""
+			for _, n := range nodes {
+				tn := tr.ByID[n.sn.Node.CM.Tip().ID]
+				if tn != nil && tn.Ledger != nil && dom.Ledger.State.SufficientlyHeavierThan(tn.Ledger.State) {
+					lighter = true
+				}
+				key += fmt.Sprintf("%v/%d;", n.sn.Node.CM.Tip(), n.sn.CM.SubmittedCount())
+			}
+			if stall.observe(allLive && lighter, key) && stallOracle() {
+				var flags []string
+				for i, n := range nodes {
+					var ps []string
+					for _, p := range n.sn.S.Peers() {
+						ps = append(ps, fmt.Sprintf("%s synced=%v err=%v", p, p.Synced(), p.Err()))
+					}
+					flags = append(flags, fmt.Sprintf("node %d tip %v blocks-handed-in %d peers [%s]", i, n.sn.Node.CM.Tip(), n.sn.CM.SubmittedCount(), strings.Join(ps, "; ")))
+				}
+				stalled = fmt.Sprintf("no progress for %v (no tip moved, no new block reached any manager) although every connection is up, tips are re-announced every 200 ms and %v is sufficiently heavier than some node's tip\n%s\ngoroutines inside the syncer:\n%s",
+					stallWindow(), dom.Index(), strings.Join(flags, "\n"), p2px.ClipStacks(p2px.StacksWith("coreutils/syncer."), 10))
+				break
+			}
+		}
 		if time.Since(lastChange) >= netStable {
 			quiescent = true
 			break
+		}
+		// "settled": peers of a near-tie cluster keep flipping each other to
+		// unsynced (every announcement of a sidechain tip triggers a resync), so
+		// the flags never come to rest; when nothing has moved for a while and no
+		// node is sufficiently lighter than another (v2) tip there is nothing
+		// left to wait for - the relations asserted below already hold
+		if allLive && time.Since(lastMove) >= 3*time.Second {
+			lighterPair := false
+			for _, a := range nodes {
+				for _, b := range nodes {
+					ta, tb := tr.ByID[a.sn.Node.CM.Tip().ID], tr.ByID[b.sn.Node.CM.Tip().ID]
+					if ta == nil || tb == nil || ta.Ledger == nil || tb.Ledger == nil || (tb.Block.V2 != nil && tb.Ledger.State.SufficientlyHeavierThan(ta.Ledger.State)) {
+						lighterPair = true
+					}
+				}
+			}
+			if !lighterPair {
+				quiescent, settled = true, true
+				break
+			}
 		}
 		if rounds%2 == 0 {
 			// tips keep being announced, as miners do
@@ -405,6 +552,15 @@ func runC12(c C12Case, cs *kit.CaseStats) error {
 	}
 	cs.Add("reconnects", int64(reconnects))
 	cs.Add("elapsed_ms", elapsed.Milliseconds())
+	if dom != nil && dom.Block.V2 != nil {
+		stall.class(cs)
+		if os.Getenv("VERIF_NET_DEBUG") != "" {
+			fmt.Printf("GAP %d\n", stall.maxGap.Milliseconds())
+		}
+	}
+	if stalled != "" {
+		return fmt.Errorf("stalled: %s", stalled)
+	}
 	if !quiescent {
 		why := "tips-moving"
 		if !lastLive {
@@ -420,25 +576,13 @@ func runC12(c C12Case, cs *kit.CaseStats) error {
 		return nil
 	}
 	cs.Class("quiescent")
+	if settled {
+		cs.Class("settled-without-synced-flags(near-tie-flapping)")
+	}
 	if rounds > int((netStable+2*time.Second)/netTick) {
 		cs.Class("needed>2s-beyond-stability-window")
 	}
 	// convergence
-	var dom *kit.TNode
-	for _, t := range tips {
-		if t == nil {
-			continue
-		}
-		ok := true
-		for _, o := range tips {
-			if o != nil && o != t && !t.Ledger.State.SufficientlyHeavierThan(o.Ledger.State) {
-				ok = false
-			}
-		}
-		if ok {
-			dom = t
-		}
-	}
 	// A v1 block cannot be announced (the v1 relay RPCs are gone; a relayed
 	// header that attaches to the receiver's tip triggers no download), so the
 	// premise "tips are announced" can only be met for v2 tips: the convergence
@@ -493,7 +637,7 @@ func tipNames(ns []*kit.TNode) []string {
 
 var c12Prop = kit.Prop[C12Case]{
 	ID:   "C12",
-	Rule: "2..5 real syncers on distinct loopback subnets, each pre-loaded with a branch of one generated fork tree (<= 24 generated blocks over all hardfork regimes plus 0..2 runs of 1..12 / 20..40 / 88..112 empty blocks; some nodes bootstrapped from a v2 checkpoint), random connected topology, connection order and delays, MaxSendBlocks in {1,3,10,100,default}. Tips are re-announced every 200 ms (header or outline), dropped edges are re-dialled. Every case: each node passes the chain audit against the reference ledger (incl. full replay of the chain it serves), tip work never decreases, no honest node gets another banned. Cases that reach quiescence (all edges up, every peer of every node Synced(), tips stable for 1.3 s) additionally: if one branch is SufficientlyHeavierThan every other, all tips equal it; in any case no tip is sufficiently lighter than another. Not quiescent within the budget = inconclusive. Non-trivial = some node reorganised >= 2 blocks or synced across the v2 require height.",
+	Rule: "2..5 real syncers on distinct loopback subnets, each pre-loaded with a branch of one generated fork tree (<= 24 generated blocks over all hardfork regimes plus 0..2 runs of 1..12 / 20..40 / 88..112 empty blocks; some nodes bootstrapped from a v2 checkpoint), random connected topology, connection order and delays, MaxSendBlocks in {1,3,10,100,default}. Tips are re-announced every 200 ms (header or outline), dropped edges are re-dialled. Every case: each node passes the chain audit against the reference ledger (incl. full replay of the chain it serves), tip work never decreases, no honest node gets another banned. Cases that reach quiescence (all edges up, every peer of every node Synced(), tips stable for 1.3 s) additionally: if one branch is SufficientlyHeavierThan every other, all tips equal it; in any case no tip is sufficiently lighter than another. Stall oracle (violation): for 15 s (25 s thorough) every edge is up, an announceable (v2) branch dominates, some node is sufficiently lighter than it, and no node's tip nor any node's count of distinct blocks handed to its manager changed - zero progress over >= 15 periods of the 1 s sync ticker (longest legitimate gap measured under load: 2.6 s; per-case maxima are recorded as max-zero-progress-gap classes). Otherwise not quiescent within the budget = inconclusive. Non-trivial = some node reorganised >= 2 blocks or synced across the v2 require height.",
 	Assumptions: []string{
 		"tips keep being announced (the repository's own `synced` test helper does the same and documents why)",
 		"v1 tips are announced with RelayV2Header (the only announcement primitive; the handler treats it at header level)",
